@@ -120,3 +120,15 @@ Arguments CNone {T}.
 Arguments CInt {T} t.
 Arguments CFloat {T} t.
 Arguments CStr {T} t.
+
+(* ---- aggregate / window output names (table.py) ------------------------------------------------
+   `x or "lit"` on a name that is None / a str: falsy = None or the empty string *)
+Definition name_or (n : option str) (d : str) : str :=
+  match n with Some (c :: t) => c :: t | _ => d end.
+(* `while <test i>: i += 1` for a probe that must stop within |used| + 1 steps (each failed probe names a
+   different member of `used`); fuelled like Model/Names.uniq_search *)
+Fixpoint while_probe (fuel i : nat) (test : nat -> bool) : nat :=
+  match fuel with
+  | 0 => i
+  | S f => if test i then while_probe f (S i) test else i
+  end.
